@@ -228,6 +228,46 @@ def stepLine (line : String) : String :=
       let out := RK.splitStep ops (polyRhs n terms) mm t y h (T.drift.map (tabRat T.K)) (T.kick.map (tabRat T.K))
       s!"{showRats out.1} {showRat out.2}"
     | _, _, _, _, _, _, _ => bad
+  -- events <sgn> <root:succ:gm:gc:gp:f1m.f1p.f2m.f2p.f3m.f3p:dir:term;...> : selection of handle_events
+  | ["events", sgn, ps] =>
+    let parseP (s : String) : Option (Events.Probe Float) :=
+      match s.splitOn ":" with
+      | [r, su, gm, gc, gp, fs, d, tm] => do
+          let r ← parseFloatBits? r
+          let gm ← parseInt? gm
+          let gc ← parseInt? gc
+          let gp ← parseInt? gp
+          let fl ← (fs.splitOn ".").mapM parseInt?
+          let d ← parseInt? d
+          let fields := match fl with
+            | [a, b, c, d2, e, f] => [(a, b), (c, d2), (e, f)]
+            | _ => []
+          pure { root := r, success := su == "1", gm := gm, gc := gc, gp := gp, fields := fields, direction := d, terminal := tm == "1" }
+      | _ => none
+    match parseFloatBits? sgn, parseList? parseP (ps.replace ";" ",") with
+    | some sgn, some l =>
+      let r := Events.handle sgn l
+      s!"{showList (fun (x : Nat × Events.Probe Float) => toString x.1) r.1} {r.2}"
+    | _, _ => bad
+  -- evrecord <dupTol> <nEvents> <tPrev:tNext:idx@root.idx@root;...> : bookkeeping of one integrate call
+  | ["evrecord", dup, nev, steps] =>
+    let parseStep (s : String) : Option (Float × Float × List (Nat × Float)) :=
+      match s.splitOn ":" with
+      | [a, b, evs] => do
+          let a ← parseFloatBits? a
+          let b ← parseFloatBits? b
+          let l ← if evs == "" then some [] else (evs.splitOn ".").mapM (fun e => match e.splitOn "@" with
+            | [i, r] => do let i ← i.toNat?; let r ← parseFloatBits? r; pure (i, r)
+            | _ => none)
+          pure (a, b, l)
+      | _ => none
+    match parseFloatBits? dup, nev.toNat?, parseList? parseStep (steps.replace ";" ",") with
+    | some dup, some nev, some sts =>
+      let b0 : Events.Book Float := { last := List.replicate nev none, events := [] }
+      let b := sts.foldl (fun b (st : Float × Float × List (Nat × Float)) =>
+        Events.record st.1 st.2.1 dup b (st.2.2.map (fun e => (e.1, ({ root := e.2, success := true, gm := 0, gc := 0, gp := 0, fields := [], direction := 0, terminal := false } : Events.Probe Float))))) b0
+      showList (fun (e : Nat × Float) => s!"{e.1}@{showFloatBits e.2}") b.events
+    | _, _, _ => bad
   -- nlfront <path m|h> <tolEps> <m: succ:noimp:res> <h: resBelow:stepBelow:trustBelow:dxn:res> <n: succ:res> <desiredTol>
   | ["nlfront", path, tolEps, m, h, n, dtol] =>
     let b (s : String) : Bool := s == "1"
